@@ -40,7 +40,7 @@ Definition abs (b : bm) : bset :=
 Fixpoint split_words (fuel : nat) (n : N) : list N :=
   match fuel with
   | O => []
-  | S f => if n =? 0 then [] else (n mod W64) :: split_words f (n / W64)
+  | S f => if n =? 0 then [] else N.land n FULL :: split_words f (N.shiftr n 64)
   end.
 Definition canon (s : bset) : bool * list N :=
   let ws := split_words (S (N.to_nat (N.size (fin s)))) (fin s) in
@@ -373,3 +373,6 @@ Definition parse_list (s : list N) : res (option bset) :=
 (* ---------- uniform view of a parse result as an abstract set ---------- *)
 Definition pres_abs (r : res pres) : option bset :=
   match r with Ok (PSet b) => Some (abs b) | _ => None end.
+
+(* ---------- helpers for the driver (two's complement image of a long) ---------- *)
+Definition long_bits (z : Z) : N := Z.to_N (z mod 18446744073709551616).
